@@ -70,6 +70,24 @@ func doParse(c Cfg, in []byte, reuse *simdjson.ParsedJson, nd bool) (pj *simdjso
 	return
 }
 
+// doParseDefault calls Parse/ParseND WITHOUT any option (the documented default: strings
+// are copied).
+func doParseDefault(avx512 bool, in []byte, reuse *simdjson.ParsedJson, nd bool) (pj *simdjson.ParsedJson, err error, panicked string) {
+	setKernel(avx512)
+	defer func() {
+		if r := recover(); r != nil {
+			panicked = fmt.Sprint(r)
+			pj, err = nil, nil
+		}
+	}()
+	if nd {
+		pj, err = simdjson.ParseND(in, reuse)
+	} else {
+		pj, err = simdjson.Parse(in, reuse)
+	}
+	return
+}
+
 // ---- walkers: API → reference tree ----
 
 type walkOpt struct {
